@@ -186,29 +186,28 @@ def run(call: GeneratorCall) -> Module:
             msg = f"Generator {call.gen} returned {m}, must return `Module`."
             raise RuntimeError(msg)
 
+        # A generator may hand on the Module generated by another generator call.
+        # Such Modules have been named already, and keep their name.
+        if m._generated_by is None:
+            # Module naming
+            # Create the unique suffix per the parameter-values first. (This can fail, for un-nameable parameters.)
+            suffix = ""
+            if hasparams(call.gen.Params):
+                suffix = "(" + _unique_name(call.params) + ")"
+            # If the Module that comes back is anonymous, start by giving it a name equal to the Generator's
+            if m.name is None:
+                m.name = call.gen.name
+            m.name += suffix
+
+        # Give the result a reference back to the generating `Call`
+        m._generated_by = call
+
     except BaseException:
         # The call failed. It is no longer in flight, and may be made again.
         the_cache.stack.pop()
         if call.gen.enable_cache:
             the_cache.pending.discard(call)
         raise
-
-    # A generator may hand on the Module generated by another generator call.
-    # Such Modules have been named already, and keep their name.
-    handed_on = m._generated_by is not None
-
-    # Give the result a reference back to the generating `Call`
-    m._generated_by = call
-
-    if not handed_on:
-        # Module naming
-        # If the Module that comes back is anonymous, start by giving it a name equal to the Generator's
-        if m.name is None:
-            m.name = call.gen.name
-
-        # If it has a nonzero number of parameters, add a unique suffix per its parameter-values
-        if hasparams(call.gen.Params):
-            m.name += "(" + _unique_name(call.params) + ")"
 
     # Store the result in our cache, and on the Call.
     the_cache.stack.pop()
